@@ -1,5 +1,6 @@
 import Batteries.Tactic.Alias
 import GenlmModel.Proofs.Wfsa2
+import GenlmModel.Proofs.Det
 /-! # C13 — pushing and trimming preserve the language (determinisation: decided per output) -/
 namespace Genlm.Props.C13
 /-- pushing preserves every string weight when states of zero backward weight accept nothing -/
@@ -14,4 +15,11 @@ alias trim_preserves := Genlm.wfsa_trim_Pk
 alias trim_useful := Genlm.wfsa_trim_useful
 alias trim_vals_preserves_nonneg := Genlm.trimVals_Pk_nonneg
 alias accessible_spec := Genlm.mem_accessible
+/-- Mohri's weighted subset construction (model of `determinize`): whenever it terminates the result has
+one initial state, no ε arc and at most one arc per state and symbol … -/
+alias determinize_deterministic := Genlm.det_deterministic
+/-- … and assigns every string the weight of the input (any field, weights of any sign) -/
+alias determinize_preserves := Genlm.det_preserves
+alias determinize_forward_invariant := Genlm.det_forward_invariant
+alias determinize_no_zero_division_of_positive := Genlm.det_no_zeroDiv_of_pos
 end Genlm.Props.C13
